@@ -56,6 +56,10 @@ type (
 		Line            int
 		Col             int
 		TrimWhitespaces bool
+
+		// the token is the body of a verbatim block: literal text that no
+		// whitespace control ('-', TrimBlocks, LStripBlocks) may touch
+		verbatim bool
 	}
 )
 
@@ -239,6 +243,7 @@ func (l *lexer) run() {
 			if strings.HasPrefix(l.input[l.pos:], fmt.Sprintf("{%% endverbatim %s%%}", name)) { // end verbatim
 				if l.pos > l.start {
 					l.emit(TokenHTML)
+					l.tokens[len(l.tokens)-1].verbatim = true
 				}
 				w := len("{% endverbatim %}")
 				l.pos += w
